@@ -1,0 +1,131 @@
+//go:build verif
+
+// Contracts for the tars2go lexer (property C16: the tool terminates on every input), checked by /verif/govc.
+// Comments only. Termination measure: lexM(unread bytes, look-ahead byte).
+
+package lexer
+
+//@ pred lexOK(ls) = ls != nil && ls.buff != nil && ls.buff != &ls.tokenBuff
+//
+//@ func (*LexState).lexErr
+//@   maypanic
+//@   ensures false
+//
+//@ func (*LexState).next
+//@   requires lexOK(ls)
+//@   modifies ls.current, ls.buff.bytes
+//@   ensures lexM(len(ls.buff.bytes), ls.current) <= lexM(len(old(ls.buff.bytes)), old(ls.current))
+//@   ensures [C16] (old(ls.current) != 0 || len(old(ls.buff.bytes)) > 0) ==> lexM(len(ls.buff.bytes), ls.current) < lexM(len(old(ls.buff.bytes)), old(ls.current))
+//@   termination [C16]
+//
+//@ func isNewLine
+//@   pure
+//@   ensures result == (b == 13 || b == 10)
+//@ func isNumber
+//@   pure
+//@   ensures result == ((b >= 48 && b <= 57) || b == 45)
+//@ func isHexNumber
+//@   pure
+//@   ensures result == ((b >= 97 && b <= 102) || (b >= 65 && b <= 70))
+//@ func isLetter
+//@   pure
+//@   ensures result == ((b >= 97 && b <= 122) || (b >= 65 && b <= 90) || b == 95)
+//
+//@ func (*LexState).incLine
+//@   requires lexOK(ls) && ls.current != 0
+//@   modifies ls.current, ls.buff.bytes, ls.lineNumber
+//@   ensures [C16] lexM(len(ls.buff.bytes), ls.current) < lexM(len(old(ls.buff.bytes)), old(ls.current))
+//@   termination [C16]
+//
+// The token readers: the measure never grows, and it decreases when the look-ahead byte starts the token.
+//
+//@ func (*LexState).readNumber
+//@   requires lexOK(ls)
+//@   modifies ls.current, ls.buff.bytes, ls.tokenBuff.bytes
+//@   allocates
+//@   maypanic
+//@   ensures lexM(len(ls.buff.bytes), ls.current) <= lexM(len(old(ls.buff.bytes)), old(ls.current))
+//@   ensures [C16] ((old(ls.current) >= 48 && old(ls.current) <= 57) || old(ls.current) == 45) ==> lexM(len(ls.buff.bytes), ls.current) < lexM(len(old(ls.buff.bytes)), old(ls.current))
+//@   loop 0 invariant lexOK(ls) && (lexM(len(ls.buff.bytes), ls.current) < lexM(len(old(ls.buff.bytes)), old(ls.current)) || (ls.current == old(ls.current) && ls.buff.bytes == old(ls.buff.bytes) && !isHex))
+//@   loop 0 decreases lexM(len(ls.buff.bytes), ls.current)
+//@   termination [C16]
+//
+//@ func (*LexState).readIdent
+//@   requires lexOK(ls)
+//@   modifies ls.current, ls.buff.bytes, ls.tokenBuff.bytes
+//@   allocates
+//@   maypanic
+//@   ensures lexM(len(ls.buff.bytes), ls.current) <= lexM(len(old(ls.buff.bytes)), old(ls.current))
+//@   ensures [C16] ((old(ls.current) >= 97 && old(ls.current) <= 122) || (old(ls.current) >= 65 && old(ls.current) <= 90) || old(ls.current) == 95) ==> lexM(len(ls.buff.bytes), ls.current) < lexM(len(old(ls.buff.bytes)), old(ls.current))
+//@   loop 0 invariant lexOK(ls) && (lexM(len(ls.buff.bytes), ls.current) < lexM(len(old(ls.buff.bytes)), old(ls.current)) || (ls.current == old(ls.current) && ls.buff.bytes == old(ls.buff.bytes)))
+//@   loop 0 decreases lexM(len(ls.buff.bytes), ls.current)
+//@   loop 1 invariant lexOK(ls) && lexM(len(ls.buff.bytes), ls.current) == lexM(len(atentry(1, ls.buff.bytes)), atentry(1, ls.current))
+//@   loop 2 invariant lexOK(ls) && lexM(len(ls.buff.bytes), ls.current) == lexM(len(atentry(2, ls.buff.bytes)), atentry(2, ls.current))
+//@   termination [C16]
+//
+//@ func (*LexState).readSharp
+//@   requires lexOK(ls) && ls.current != 0
+//@   modifies ls.current, ls.buff.bytes, ls.tokenBuff.bytes
+//@   allocates
+//@   maypanic
+//@   ensures [C16] lexM(len(ls.buff.bytes), ls.current) < lexM(len(old(ls.buff.bytes)), old(ls.current))
+//@   loop 0 invariant lexOK(ls) && lexM(len(ls.buff.bytes), ls.current) < lexM(len(old(ls.buff.bytes)), old(ls.current))
+//@   loop 0 decreases lexM(len(ls.buff.bytes), ls.current)
+//@   termination [C16]
+//
+//@ func (*LexState).readString
+//@   requires lexOK(ls) && ls.current != 0
+//@   modifies ls.current, ls.buff.bytes, ls.tokenBuff.bytes
+//@   allocates
+//@   maypanic
+//@   ensures [C16] lexM(len(ls.buff.bytes), ls.current) < lexM(len(old(ls.buff.bytes)), old(ls.current))
+//@   loop 0 invariant lexOK(ls) && lexM(len(ls.buff.bytes), ls.current) < lexM(len(old(ls.buff.bytes)), old(ls.current))
+//@   loop 0 decreases lexM(len(ls.buff.bytes), ls.current)
+//@   termination [C16]
+//
+//@ func (*LexState).readLongComment
+//@   requires lexOK(ls)
+//@   modifies ls.current, ls.buff.bytes, ls.lineNumber
+//@   maypanic
+//@   ensures lexM(len(ls.buff.bytes), ls.current) <= lexM(len(old(ls.buff.bytes)), old(ls.current))
+//@   loop 0 invariant lexOK(ls) && lexM(len(ls.buff.bytes), ls.current) <= lexM(len(old(ls.buff.bytes)), old(ls.current))
+//@   loop 0 decreases lexM(len(ls.buff.bytes), ls.current)
+//@   termination [C16]
+//
+//@ func (*LexState).llexDefault
+//@   requires lexOK(ls)
+//@   modifies ls.current, ls.buff.bytes, ls.tokenBuff.bytes
+//@   allocates
+//@   maypanic
+//@   ensures [C16] lexM(len(ls.buff.bytes), ls.current) < lexM(len(old(ls.buff.bytes)), old(ls.current))
+//@   termination [C16]
+//
+// lLex: a token other than Eof consumes input; Eof is returned only with a zero look-ahead byte.
+//
+//@ func (*LexState).lLex
+//@   requires lexOK(ls)
+//@   modifies ls.current, ls.buff.bytes, ls.tokenBuff.bytes, ls.lineNumber
+//@   allocates
+//@   maypanic
+//@   ensures lexM(len(ls.buff.bytes), ls.current) <= lexM(len(old(ls.buff.bytes)), old(ls.current))
+//@   ensures [C16] result0 != token.Eof ==> lexM(len(ls.buff.bytes), ls.current) < lexM(len(old(ls.buff.bytes)), old(ls.current))
+//@   loop 0 invariant lexOK(ls) && lexM(len(ls.buff.bytes), ls.current) <= lexM(len(old(ls.buff.bytes)), old(ls.current))
+//@   loop 1 invariant lexOK(ls) && lexM(len(ls.buff.bytes), ls.current) <= lexM(len(atentry(1, ls.buff.bytes)), atentry(1, ls.current))
+//@   loop 0 decreases lexM(len(ls.buff.bytes), ls.current)
+//@   loop 1 decreases lexM(len(ls.buff.bytes), ls.current)
+//@   termination [C16]
+//
+//@ func (*LexState).NextToken
+//@   requires lexOK(ls)
+//@   modifies ls.current, ls.buff.bytes, ls.tokenBuff.bytes, ls.lineNumber
+//@   allocates
+//@   maypanic
+//@   ensures result != nil && fresh(result)
+//@   ensures lexM(len(ls.buff.bytes), ls.current) <= lexM(len(old(ls.buff.bytes)), old(ls.current))
+//@   ensures [C16] result.T != token.Eof ==> lexM(len(ls.buff.bytes), ls.current) < lexM(len(old(ls.buff.bytes)), old(ls.current))
+//@   termination [C16]
+//
+//@ func NewLexState
+//@   allocates
+//@   ensures result != nil && fresh(result) && lexOK(result)
+//@   termination [C16]
